@@ -154,13 +154,16 @@ def prove_connect(src_root, ex: Explorer):
 
 
 def prove_disconnect(src_root, ex: Explorer):
-    outcomes = ['ok', 'wait_closed-raises', 'wait_closed-timeout', 'cancelled-in-wait_closed', 'no-writer']
+    # 'called-from-a-queued-send': disconnect() runs inside one of the connection's own queued send tasks (its write failed); cancelling
+    # the queued sends then cancels the CALLER, and the CancelledError is delivered at the next suspension, wherever that is
+    outcomes = ['ok', 'wait_closed-raises', 'wait_closed-timeout', 'cancelled-in-wait_closed', 'no-writer', 'called-from-a-queued-send']
 
     def path(ctx: Ctx):
         it = mk(src_root, ctx)
         w = NetWorld(it, ctx)
         start = ORDER[ctx.choose(5, 'start')]
         oc = outcomes[ctx.choose(len(outcomes), 'outcome')]
+        armed = []
         c = w.data_connection(state=start, writer=(oc != 'no-writer'))
         w.registry.append(c)
         q = A.TaskVal(it.aio, None, 'queued-message')
@@ -175,11 +178,30 @@ def prove_disconnect(src_root, ex: Explorer):
                     it2.throw('CancelledError')
             c.attrs['_writer'].attrs['wait_closed'] = Recorder('wait_closed', fn=wait_closed, is_async=True)
         second = []
+        if oc == 'called-from-a-queued-send':
+            key = f'{CONN}:DataConnection._cancel_queued_messages'
+
+            def c_cancel(it2, f, a, k):
+                armed.append(1)
+                it2.hooks.pop(key)              # run the real body
+                try:
+                    return it2.call(f, list(a), dict(k))
+                finally:
+                    it2.hooks[key] = c_cancel
+            it.hooks[key] = c_cancel
+
+            def on_yield(it2, label):
+                if armed and len(armed) == 1:
+                    armed.append(label)
+                    raise PyRaise(ExcVal(BUILTIN_CLASSES['CancelledError'], (), {'at': label}))
+            it.aio.on_yield = on_yield
         try:
             run(it, it.getattr(c, 'disconnect'), enum(it, CONN, 'CloseReason', 'REQUESTED'))
             raised = None
         except PyRaise as pr:
             raised = pr.exc.cls.name
+        it.aio.on_yield = None
+        it.hooks.pop(f'{CONN}:DataConnection._cancel_queued_messages', None)
         seq = w.seq(c)
         # a second (concurrent or later) call reports nothing
         n_before = len(w.events)
@@ -189,7 +211,7 @@ def prove_disconnect(src_root, ex: Explorer):
             ctx.prove(f'C10.disconnect.once[{tag}]', seq == [] and raised is None, 'a connection that is closing / closed reports nothing more')
         else:
             ctx.prove(f'C10.disconnect.once[{tag}]', seq == ['CLOSING', 'CLOSED'] and len(w.events) == n_before and c.attrs['state'].name == 'CLOSED'
-                      and raised in (None, 'CancelledError') and (raised == 'CancelledError') == (oc == 'cancelled-in-wait_closed'),
+                      and raised in (None, 'CancelledError') and (raised == 'CancelledError') == (oc in ('cancelled-in-wait_closed', 'called-from-a-queued-send')),
                       f'{seq}, second call added {len(w.events) - n_before} reports, raised {raised}')
             ctx.prove(f'C10.disconnect.unregisters[{tag}]', not any(x is c for x in w.registry) and c.attrs['_writer'] is None and c.attrs['_reader'] is None)
             ctx.prove(f'C10.disconnect.cancels-queued[{tag}]', q.cancel_requested)
@@ -320,6 +342,41 @@ def prove_shutdown_order(src_root, ex: Explorer):
         ctx.prove('C10.shutdown.closes-server', 'server-closed' in order)
     ex.run(path, 'shutdown-order')
 
+    def exact(ctx: Ctx):
+        """the registry stays exact across a shutdown: the peer connections registered at the call are closed (each leaves the registry
+        through its own CLOSED report, C10.registry.remove); a connection that is registered WHILE disconnect() is suspended (accepted in
+        that window) and is still open afterwards must still be registered - only CLOSED removes an entry"""
+        it = mk(src_root, ctx)
+        it.hooks[f'{NET}:Network._cancel_all_tasks'] = lambda it2, f, a, k: None
+        registry = []
+
+        def mkc(label):
+            c = Stub(label)
+
+            def disc(it2, a, k):
+                registry[:] = [x for x in registry if x is not c]      # contract of disconnect + registry.remove: CLOSED, removed
+            c.attrs['disconnect'] = Recorder('disconnect', fn=disc, is_async=True)
+            return c
+        early = mkc('registered at the call')
+        late = mkc('accepted during the shutdown')
+        registry.append(early)
+        sc = Stub('server', disconnect=Recorder('disconnect', is_async=True))
+        net = new(it, NET, 'Network', server_connection=sc, peer_connections=registry, listening_connections=[None, None])
+        seen = []
+
+        def on_yield(it2, label):
+            if not seen:
+                seen.append(label)
+                net.attrs['peer_connections'].append(late)
+        it.aio.on_yield = on_yield
+        run(it, it.getattr(net, 'disconnect'))
+        now = net.attrs['peer_connections']
+        late_closed = len(late.attrs['disconnect'].calls) > 0
+        ctx.prove('C10.shutdown.registry-exact', isinstance(now, list) and not any(x is early for x in now) and
+                  (late_closed or any(x is late for x in now)),
+                  'a connection accepted while Network.disconnect() was suspended is open but no longer registered (nothing can close it any more)')
+    ex.run(exact, 'shutdown-registry')
+
     def direct(ctx: Ctx):
         """_make_direct_connection: the connection object is in the registry before connect() is awaited (a CONNECTING connection is an
         open attempt: it must be closed by a shutdown and removed on CLOSED)"""
@@ -389,8 +446,18 @@ def prove_registry(src_root, ex: Explorer):
     ex.run(dispatch, 'on_state_changed')
 
 
+def prove_connect_sites(src_root, ex: Explorer):
+    """The call sites of PeerConnection.connect(): the connection is registered before the call (registry exact while CONNECTING) and is
+    a FRESH object (UNINITIALIZED) - a peer connection never goes closed -> connecting.  The harnesses are the ones of C11 (outgoing direct
+    attempt, connect-back after ConnectToPeer); only their C10.* obligations are kept here."""
+    from contracts import C11
+    C11.prove_direct(src_root, ex)
+    C11.prove_connect_to_peer(src_root, ex)
+    ex.obligations[:] = [ob for ob in ex.obligations if ob.name.startswith('C10.')]
+
+
 def items(src_root, tier):
-    return [('set_state', None), ('connect', None), ('disconnect', None), ('after', None), ('accept', None), ('registry', None), ('accepted', None), ('accepted-failures', None), ('shutdown', None)]
+    return [('connect-sites', None), ('set_state', None), ('connect', None), ('disconnect', None), ('after', None), ('accept', None), ('registry', None), ('accepted', None), ('accepted-failures', None), ('shutdown', None)]
 
 
 def run_item(src_root, item, tier):
@@ -399,7 +466,8 @@ def run_item(src_root, item, tier):
     kind, arg = item
     try:
         {'set_state': prove_set_state, 'connect': prove_connect, 'disconnect': prove_disconnect, 'after': prove_after_closed,
-         'accept': prove_accept, 'registry': prove_registry, 'accepted': prove_accepted_registered, 'accepted-failures': prove_accepted_failures, 'shutdown': prove_shutdown_order}[kind](src_root, ex)
+         'accept': prove_accept, 'registry': prove_registry, 'accepted': prove_accepted_registered, 'accepted-failures': prove_accepted_failures, 'shutdown': prove_shutdown_order,
+         'connect-sites': prove_connect_sites}[kind](src_root, ex)
     except Unsupported as e:
         res.errors.append(f'{kind}: unsupported: {e}')
     collect(res, ex)
